@@ -75,12 +75,6 @@ ASSUMPTIONS = [
     'normalised, (1,1) broadcast operand read at 0, scalar-evaluator fallback for column-major operands and identity-less ops)',
 ]
 PARTIAL = [
-    'reductions over an axis other than the last: simdReduceAxis_nonLastAxis_eq_fold proves, for every n-d shape pre++[A]++post, that '
-    'eval_reduction leaves no buffer and that row rho of its result is the column-wise left fold (from the identity row) of buffer rows '
-    'rho*A .. rho*A+A-1 (via simdReduceVertical_eq_loop/_eq_fold on the 2-d forms of reduction_nd_reshape). Not proved: that this '
-    'row-wise fold is the cell-wise reference scalarReduceAxis on the n-d NDA (mixed-radix decomposition of ndindex; full statement '
-    'kept as a comment in Props/C12.lean); proved in full for the last axis (simdReduceAxis_lastAxis_eq_scalar); the non-last-axis '
-    'identification is checked by the NumPy oracle on every run',
     'outer: outer_covers_once (every output cell written exactly once, any operand rank) is proved; that the lhs/rhs offsets of each step '
     'are the outer-product operands, and the evaluator-level simdOuter = scalarOuter, are not (correspondence + NumPy only)',
     'matmul: matmul_inner_covers_once (the inner steps of every output element read its lhs row / rhs column exactly once, any K) is '
